@@ -273,7 +273,7 @@ def gen_cases(ctx):
     cases = []
     n = ctx.n(5000, 60000)
     for _ in range(n):
-        t = G.gen_ty(rng, depth, allow_any=False)
+        t = G.gen_ty(rng, depth, allow_any=False, big_unhashable=True)
         r = rng.random()
         if r < 0.3:
             o = rng.choice(small)
